@@ -79,6 +79,8 @@ type FnCtx struct {
 	ufAxioms map[string]string // per uninterpreted function: an axiom rendered right after its declaration (range well-formedness)
 	loopWrites map[string]map[string]bool
 	curFrame *Frame
+	pureHeap    map[string][]string // pure function key -> sorted read footprint (pureheap.go)
+	pureHeapBad map[string]bool
 }
 
 type Frame struct {
